@@ -37,6 +37,8 @@ type conn struct {
 // ErrClosed represents a error.
 var ErrClosed = errors.New("network closed")
 
+var errTooManyPendingCalls = errors.New("hprose/rpc/udp: too many pending calls")
+
 func dial(ctx context.Context) (net.Conn, error) {
 	u := core.GetClientContext(ctx).URL
 	var d net.Dialer
@@ -64,10 +66,15 @@ func newConn(ctx context.Context, onConnect func(net.Conn) net.Conn, onClose fun
 	}, nil
 }
 
-func (c *conn) store(index int, resultChan chan data) {
+// store registers resultChan under index unless a pending call is already using that index.
+func (c *conn) store(index int, resultChan chan data) (stored bool) {
 	c.lock.Lock()
-	c.results[index] = resultChan
+	if _, pending := c.results[index]; !pending {
+		c.results[index] = resultChan
+		stored = true
+	}
 	c.lock.Unlock()
+	return
 }
 
 func (c *conn) delete(index int) {
@@ -106,7 +113,12 @@ func (c *conn) Transport(ctx context.Context, request []byte) (response []byte, 
 	}
 	index := int(atomic.AddInt32(&c.counter, 1) & 0x7fff)
 	resultChan := make(chan data, 1)
-	c.store(index, resultChan)
+	for tries := 0; !c.store(index, resultChan); tries++ {
+		if tries == 0x7fff {
+			return nil, errTooManyPendingCalls
+		}
+		index = int(atomic.AddInt32(&c.counter, 1) & 0x7fff)
+	}
 	select {
 	case <-ctx.Done():
 		c.delete(index)
